@@ -389,19 +389,21 @@ def run_shard(spec, R):
             cnt = int(rng.integers(1, 5))
             h = float(2.0 ** rng.integers(-2, 2))
             same_grid = bool(rng.random() < 0.35)
+            # physical magnitude of the data: ordinary, traces (1e-9) or large counts (exact powers of two times ...)
+            mag_s = [1.0, 1.0, float(2.0 ** -30), float(2.0 ** 20)][int(rng.integers(0, 4))]
             imgs, places = [], []
             base_shape = (int(rng.integers(1, 9)), int(rng.integers(1, 9)))
             nt = 3
             for k in range(cnt):
                 shp = base_shape if same_grid else (int(rng.integers(1, 9)), int(rng.integers(1, 9)))
                 r0, c0 = (0, 0) if same_grid else (int(rng.integers(-6, 7)), int(rng.integers(-6, 7)))
-                a = rng.integers(-9, 10, size=shp + ((nt,) if series else ())).astype(np.float64)
+                a = rng.integers(-9, 10, size=shp + ((nt,) if series else ())).astype(np.float64) * mag_s
                 kw = dict(space_dim=2, dimensions=[shp[0] * h, shp[1] * h], scalar=True, series=series, origin=[c0 * h, -r0 * h])
                 if series:
                     kw["time"] = [0.0, 1.0, 2.0]
                 imgs.append(darsia.Image(a.copy(), **kw))
                 places.append((r0, c0, shp, a))
-            case = {"op": "superpose", "count": cnt, "voxel_size": h, "series": series, "same_grid": same_grid,
+            case = {"op": "superpose", "count": cnt, "data_magnitude": mag_s, "voxel_size": h, "series": series, "same_grid": same_grid,
                     "placements": [[r, c, list(s)] for r, c, s, _ in places]}
             snap = [im.img.copy() for im in imgs]
             ok, sup = R.guarded("superpose", lambda: darsia.superpose(imgs))
@@ -418,11 +420,11 @@ def run_shard(spec, R):
                 if good:
                     err = float(np.max(np.abs(sup.img - canvas)))
                     det["max_err"] = err
-                    good = err <= 1e-6 * max(float(np.max(np.abs(canvas))), 1.0)
+                    good = err <= 1e-6 * max(float(np.max(np.abs(canvas))), mag_s)
                     good &= np.allclose(sup.dimensions, [(rmax - rmin) * h, (cmax - cmin) * h], rtol=1e-14) and np.allclose(np.asarray(sup.origin, float), [cmin * h, -rmin * h], rtol=1e-14, atol=1e-14)
                     i_sum = sum(integral(a, [s[0] * h, s[1] * h], 2)[0] for r, c, s, a in places)
                     i_can, mag = integral(sup.img, list(sup.dimensions), 2)
-                    good &= bool(np.all(np.abs(i_can - i_sum) <= 1e-6 * np.maximum(mag, 1e-300) + 1e-9))
+                    good &= bool(np.all(np.abs(i_can - i_sum) <= 1e-6 * np.maximum(mag, 1e-300) + 1e-9 * mag_s))
                 R.check(good, "superpose", lambda: {**case, **det}, group=f"{cnt}/{same_grid}/{series}")
                 R.check(all(np.array_equal(im.img, s) for im, s in zip(imgs, snap)), "input_untouched", case)
                 R.sig(["superpose", cnt, same_grid, series, case["placements"]], cnt > 1, cls=f"superpose/{'same' if same_grid else 'offset'}/{'series' if series else 'single'}")
